@@ -815,6 +815,11 @@ class Abstractor:
                         s._atomfp[r.decl().name()] = s._fn_fp(nm, fc) if all(f is not None for f in fc) else None
                         if nm == 'atan2':
                             s.side += [r > -PI, r <= PI]
+                            # antipodal pairs: atan2(-y, -x) = atan2(y, x) -+ pi  (for (x, y) != (0, 0))
+                            for args, c in s.atoms.get('atan2', [])[:-1]:
+                                if s.equal(args[0], ch[0], -1) and s.equal(args[1], ch[1], -1):
+                                    s.side.append(z3.Implies(z3.Or(ch[0] != 0, ch[1] != 0),
+                                                             z3.Or(z3.And(c > 0, r == c - PI), z3.And(c <= 0, r == c + PI))))
             else:
                 ch = [s.ab(c) for c in t.children()]
                 r = d(*ch)
@@ -870,7 +875,14 @@ def prove(goal, hyps=(), timeout=60000, rounds=2, use_axioms=True, cvc5=True, ex
         last = (r, s, A, LAST_MODEL[0])
         QLOG.append(dict(stage=stage, result=str(r), ms=round(1000 * (time.time() - t0))))
         if r == z3.unsat:
-            return dict(result='discharged', stage=stage, ms=round(1000 * (time.time() - t0)), backend=Z3V)
+            res = dict(result='discharged', stage=stage, ms=round(1000 * (time.time() - t0)), backend=Z3V)
+            if stage >= 1 and H:
+                # vacuity guard: contradictory hypotheses discharge anything
+                sv = z3.Solver()
+                sv.add(*A[:-1])
+                if zcheck(sv, 1500) == z3.unsat:
+                    res['vacuous'] = True
+            return res
     r, s, A, model = last
     if r == z3.unknown and cvc5:
         r2 = _cvc5_check(A, min(timeout, 30000))
